@@ -5,7 +5,7 @@ from .. import oracle as o
 ID = 'C10'
 RULE = ('one record per KDF call: HKDF-Extract/Expand over SHA-1/256/512/SHA3-256 with L in {0,1,HL-1,HL,HL+1,2HL+1,255HL-1,255HL} must equal RFC 5869 and '
         'L in {255HL+1, 256HL, 256HL+1, 300HL} must be refused (PANIC); PBKDF2 over HMAC-SHA1/256/512, HMAC over truncated BLAKE2 and keyed BLAKE2 itself (PRF output lengths 1..64, not multiples of 4) with c in {1,2,3,4,5,10,100,(4096)} and dkLen '
-        'across block boundaries and outputs of 2^26..2^28 bytes (CRC-32 and both ends compared); scrypt at N = 2^17 and over the grid log2N 1..10 x r 1..8 x p 1..4 with dkLen 1..130 (quick: Latin-square quarter); '
+        'across block boundaries, every salt / password / IKM / info length 0..140, and outputs of 2^26..2^28 bytes (CRC-32 and both ends compared); scrypt at N = 2^17 and over the grid log2N 1..10 x r 1..8 x p 1..4 with dkLen 1..130 (quick: Latin-square quarter); '
         'HKDF is also handed digest objects that already absorbed data or were finalised; every output buffer is pre-filled with a non-zero pattern by the driver; distinct = (function, digest/params, length class)')
 ASSUMPTIONS = ['hashlib.pbkdf2_hmac / hashlib.scrypt (OpenSSL) and own RFC transcriptions pinned by RFC 5869/6070/7914 vectors']
 FLOORS = {'evaluations': 400, 'distinct': 300}
@@ -37,6 +37,16 @@ def gen(tier, seed):
             for dk in dks:
                 yield 'pbkdf2 %s %s %s %d %d' % (d, rng.data(rng.choice([0, 1, 8, 64, 65, 200])), rng.data(rng.choice([0, 1, 8, 16, 100])), c, dk)
         yield 'pbkdf2 %s %s %s %d %d' % (d, rng.data(8), rng.data(8), rng.rng(200, 1000), 3 * hl + 5)
+    # every salt, password, IKM and info length 0..=140 (the first PRF message is salt || INT(i): lengths where salt+4 crosses a
+    # 64- / 128-byte block or a small-buffer limit; passwords / IKM around the block size of the hash are hashed first)
+    for n in range(0, 141):
+        d = ('sha1', 'sha256', 'sha512')[n % 3]
+        hl = o.digest_fn(d)[2]
+        yield 'pbkdf2 %s %s %s %d %d' % (d, rng.data(rng.choice([1, 8, 20])), rng.data(n), rng.choice([1, 2]), rng.choice([hl, hl + 3, 2 * hl + 1]))
+        yield 'pbkdf2 %s %s %s 1 %d' % (('sha256', 'sha512', 'sha1')[n % 3], rng.data(n), rng.data(rng.choice([4, 16])), rng.choice([5, 33, 70]))
+        yield 'scrypt %s %s %d 1 1 %d' % (rng.data(rng.choice([0, 5, 70])) if n % 2 else rng.data(n), rng.data(n), rng.choice([1, 2]), rng.choice([16, 33, 64]))
+        yield 'hkdf_extract %s %s %s' % (d, rng.data(n), rng.data((n * 7) % 141))
+        yield 'hkdf_expand %s %s %s %d' % (d, rng.data(hl), rng.data(n), rng.choice([1, hl, 2 * hl + 1]))
     # PRFs whose output length is not a multiple of 4 / 8 / 16 bytes: HMAC over truncated BLAKE2, and keyed BLAKE2 itself as the PRF
     for d, hl in (('blake2s:25', 25), ('blake2b:30', 30), ('blake2b:1', 1), ('blake2s:7', 7), ('b2bmac:30', 30), ('b2bmac:64', 64), ('b2bmac:13', 13), ('b2smac:25', 25), ('b2smac:32', 32), ('b2smac:3', 3)):
         for c in (1, 2, 3, 10):
